@@ -47,7 +47,7 @@ pub fn vx_arr_eq_slice(a: &[u8; 32], b: &[u8]) -> (r: bool)
         r.is_ok() ==> old(value)@.len() >= 32
             && final(value)@ == old(value)@.take(old(value)@.len() - 32)
             && old(value)@.skip(old(value)@.len() - 32) == hmac_sha256(secret@, rec_bytes(lss_rec(key@, version, final(value)@))),   //[C17.lss-check.accepts-only-matching-tag]
-//@sub /hmac == expected_hmac\.as_slice\(\)/ => vx_arr_eq_slice(&hmac, expected_hmac.as_slice())
+//@sub /hmac (!)?==? expected_hmac\.as_slice\(\)/ => \1vx_arr_eq_slice(&hmac, expected_hmac.as_slice())
 //@end
 
 //@fn lightning-storage-server/lib/src/util.rs :: - :: compute_shared_hmac props=C17
